@@ -84,3 +84,79 @@ Theorem offs_size_minimal :
     ((1 < M_offs_size i)%N -> 256 ^ (Z.of_N (M_offs_size i) - 1) <= i).
 Proof. exact offs_size_spec. Qed.
 Print Assumptions offs_size_minimal.
+
+(* ---------- charset, encoding, FDSelect ---------- *)
+From C13 Require Import ModelTables Proofs_charset Proofs_fdselect Proofs_encoding.
+Local Open Scope N_scope.
+
+(* Every list of 16-bit identifiers (SIDs or CIDs) starting with 0 for
+   .notdef, of at most 65535 entries, is encoded (whichever of the three
+   formats the length rule selects), and readCharset returns the same list and
+   stops at the end of the data, whatever follows. *)
+Theorem charset_roundtrip :
+  forall ns : list N,
+    Forall (fun x => x < 65536) ns -> lenN ns < 65535 ->
+    exists bs, M_charset_encode (0%Z :: map Z.of_N ns) = Ok bs /\
+      forall tail, M_charset_read (Z.of_nat (S (length ns))) (bs ++ tail) = Ok (0 :: ns, tail).
+Proof. exact charset_roundtrip_gen. Qed.
+Print Assumptions charset_roundtrip.
+
+(* readCharset is total: never a panic, the loop needs at most nGlyphs
+   rounds, and an accepted charset has exactly nGlyphs entries. *)
+Theorem charset_read_total :
+  forall nGlyphs inp,
+    match M_charset_read nGlyphs inp with
+    | Ok (l, _) => Z.of_N (lenN l) = nGlyphs /\ (1 <= nGlyphs < 65536)%Z
+    | Err => True
+    | Panic | OutOfFuel => False
+    end.
+Proof. exact charset_read_total_gen. Qed.
+Print Assumptions charset_read_total.
+
+(* Encodings: for every vector of 256 glyph ids over a font whose glyph names
+   have distinct 16-bit SIDs, if encodeEncoding accepts it (the documented
+   contiguity rule holds and at most 255 ranges are needed), readEncoding
+   returns the same vector — format 0 or 1, with or without supplements for
+   multiply-encoded glyphs — and stops at the end of the data. *)
+Theorem encoding_roundtrip :
+  forall (enc : list N) (names : list Z) (bs tail : list N),
+    lenN enc = 256 -> (forall g, In g enc -> g < lenN names) ->
+    lenN names <= 65536 -> NoDup (map sidN names) ->
+    M_encoding_encode enc names = Ok bs ->
+    M_encoding_read (bs ++ tail) names = Ok (enc, tail).
+Proof. exact encoding_roundtrip_gen. Qed.
+Print Assumptions encoding_roundtrip.
+
+(* readEncoding is total and an accepted encoding has 256 entries. *)
+Theorem encoding_read_total :
+  forall inp cs,
+    match M_encoding_read inp cs with
+    | Ok (r, _) => length r = 256%nat
+    | Err => True
+    | Panic | OutOfFuel => False
+    end.
+Proof. exact encoding_read_total_gen. Qed.
+Print Assumptions encoding_read_total.
+
+(* FDSelect: any assignment of up to 65535 glyphs to up to 256 font
+   dictionaries survives, in format 0 or 3; the function returned by
+   readFDSelect (a binary search over the range ends) gives back the
+   dictionary of every glyph. *)
+Theorem fdselect_roundtrip :
+  forall (fds : list N) (np : N) (tail : list N),
+    Forall (fun x => x < 256) fds -> Forall (fun x => x < np) fds -> lenN fds < 65536 ->
+    M_fdselect_read (lenN fds) np (M_fdselect_encode fds ++ tail) = Ok (fds, tail).
+Proof. exact fdselect_roundtrip_gen. Qed.
+Print Assumptions fdselect_roundtrip.
+
+(* readFDSelect and the function it returns are total for nGlyphs < 65536:
+   never a panic, and every glyph is mapped to an existing dictionary. *)
+Theorem fdselect_read_total :
+  forall n np inp, n < 65536 ->
+    match M_fdselect_read n np inp with
+    | Ok (tbl, _) => lenN tbl = n /\ Forall (fun fd => fd < np) tbl
+    | Err => True
+    | Panic | OutOfFuel => False
+    end.
+Proof. exact fdselect_read_total_gen. Qed.
+Print Assumptions fdselect_read_total.
